@@ -1380,6 +1380,18 @@ class Engine:
         v = outs[0][1]
         return self.truthy(s, v)
 
+    def eval_spec_value(self, text, st, extra=None):
+        """evaluate a contract expression (pure) in state st -> its VALUE (not its truthiness)"""
+        node = ast.parse(text, mode="eval").body
+        s = st.copy()
+        s.env = dict(s.env)
+        s.env.update(extra or {})
+        s.env["__spec__"] = True
+        outs = self.eval(node, s)
+        if len(outs) != 1 or outs[0][2] is not None:
+            raise Unsupported(f"contract expression forked or raised: {text}")
+        return outs[0][1]
+
     # ------------------------------------------------------------------ expressions
     def eval(self, node, st):
         """-> [(st, value, exc)]"""
